@@ -24,6 +24,7 @@ import warnings
 import numpy as np
 
 from vf import imgtruth as T
+from vf.core import HarnessError
 
 PROPERTY = "C15"
 LEVEL = "exploration"
@@ -33,7 +34,10 @@ ANCHOR_FILES = [
     "quantem/core/utils/compound_validators.py",
 ]
 RULE = (
-    "geometry cases: seeded matrix shape class{square even/odd, tall, wide, mixed parity, tiny 6..9} x scan-angle class{0,90,180,270,random "
+    "every stack is handed over in one of 6 input forms (list of ndarrays, the same in 7 non-default memory layouts: Fortran / transposed / rot90 / strided / "
+    "read-only / flipped / offset views, 3-D array, 3-D array in other layouts, Dataset3d and list of Dataset2d with arbitrary anisotropic sampling, origin, units); a third "
+    "of the geometry cases are mixed-shape list stacks (HxW and WxH frames, unrelated sizes); frames are intensity ramps in canvas coordinates so the resampled "
+    "intensities are judged too; geometry cases: seeded matrix shape class{square even/odd, tall, wide, mixed parity, tiny 6..9} x scan-angle class{0,90,180,270,random "
     "in [0,360), per-image different angles} x pad class{0, 0.1, 0.25, 0.5, random 0..0.5}, stacks of 2..4 images, KDE sigma 0.3..2, every case "
     "preprocessed with 1, 2, 3 and 4 knots and followed by a history on the same object (2..4 of: warp_image with upsample_factor 2/3, "
     "generate_corrected_image, plain warp_image, repeated transform_coordinates) with closed form, weights and previously returned arrays re-checked after every step; half of all cases run on a re-used DriftCorrection object (it first served another acquisition, is re-configured through the public "
@@ -43,6 +47,9 @@ RULE = (
     "multiple of 90 degrees; distinct = (kind, shape class, angle class, pad class | upsample factor, knots, family)"
 )
 ASSUMPTIONS = [
+    "the property is stated in pixels: calibration carried by Dataset2d/Dataset3d inputs (sampling, origin, units) and the container type / memory layout of the frames must not change knots, coordinates, weights or resampled intensities (compared with the list-of-C-contiguous-float64-arrays result, bound 1e-6 relative, measured 0)",
+    "mixed-shape list stacks are judged frame by frame against the closed form for that frame's own shape; the canvas size (which the library derives from the first two frames) is read from the object",
+    "intensity placement: frames are linear ramps in canvas coordinates; inside the fully supported part of a frame (more than 4 sigma + 1.5 px from its edges, footprint not touching the canvas border) the resampled value must be the ramp value within the equivalent of 0.5 px (measured <= 0.07 px: kernel-weighted mean offset of the contributing samples)",
     "rotation convention pinned from the property text and the theta=0 case: offsets (d_row, d_col) map to (cos*d_row - sin*d_col, sin*d_row + cos*d_col); theta = scan_direction_degrees",
     "the canvas shape is read from the object (DriftCorrection.shape); the property fixes the placement relative to the canvas centre, not the canvas size",
     "coordinates are float64: bound 1e-9 px (measured <= 1e-14); weight maps are accumulated in float32: sum bound 1e-4 relative (measured <= 1e-6), centroid bound 1e-5 px (measured 2e-8), cross moment bound 1e-5*(V_r+V_c)+1e-5 px^2 (measured 3e-7)",
@@ -60,6 +67,8 @@ REQUIRED_COUNTERS = [
     "eval:weight_sum_not_pixel_count",
     "eval:fixed_point_knots_moved",
     "eval:coords_not_closed_form_after_history",
+    "eval:input_form_changes_result",
+    "eval:intensity_not_at_closed_form_position",
 ]
 
 SHAPES = ["sq_even", "sq_odd", "tall", "wide", "mixed", "tiny"]
@@ -79,13 +88,14 @@ def plan(tier, seed):
     reps = 2 if tier == "quick" else 50
     for rep in range(reps):
         for shp, ang, pad in itertools.product(SHAPES, ANGLES, PADS):
-            geom.append({"kind": "geom", "shape": shp, "angle": ang, "pad": pad, "reused": (len(geom) + rep) % 2 == 1})
+            g = len(geom)
+            geom.append({"kind": "geom", "shape": shp, "angle": ang, "pad": pad, "reused": (g + rep) % 2 == 1, "form": FORMS[(g // 2 + rep) % len(FORMS)], "mixed": (g // 3 + rep) % 3 == 0})
     reps = 3 if tier == "quick" else 50
     k = 0
     for rep in range(reps):
         for up, K, ang in itertools.product(UPS, [1, 2, 3, 4], ANGLES[:5]):
             k += 1
-            fixed.append({"kind": "fixed", "up": up, "knots": K, "angle": ang, "shape": SHAPES[(k + rep) % len(SHAPES)], "pad": PADS[(k // 2 + rep) % len(PADS)], "family": FAMILIES[(k // 3 + rep) % len(FAMILIES)], "reused": (k + rep) % 2 == 1})
+            fixed.append({"kind": "fixed", "up": up, "knots": K, "angle": ang, "shape": SHAPES[(k + rep) % len(SHAPES)], "pad": PADS[(k // 2 + rep) % len(PADS)], "family": FAMILIES[(k // 3 + rep) % len(FAMILIES)], "reused": (k + rep) % 2 == 1, "form": FORMS[(k // 2 + rep) % len(FORMS)]})
     # interleave the two kinds so that a time-budget cut on a loaded machine trims both evenly
     specs = []
     for i in range(max(len(geom), len(fixed))):
@@ -103,6 +113,10 @@ def setup(ctx):
     from quantem.imaging import drift as D
 
     ctx.state["D"] = D
+    from quantem.core.datastructures.dataset2d import Dataset2d
+    from quantem.core.datastructures.dataset3d import Dataset3d
+
+    ctx.state["Dataset2d"], ctx.state["Dataset3d"] = Dataset2d, Dataset3d
     ctx.state["iu"] = iu
     ctx.state["tc_log"] = None
     ctx.state["cc_log"] = None
@@ -224,14 +238,147 @@ def _weights_checks(ctx, w, shape, canvas, angle, sigma, xa_e, ya_e, common, wha
     ctx.close(cross - exp_cross, 1e-5 * (Vr + Vc) + 1e-5, "weight_cross_moment", lambda: "%s: cov(row,col) of the weight map %.6f expected %.6f (shape %s angle %.3f)" % (what, cross, exp_cross, shape, angle), stage=what, **common)
 
 
+def _sh(shape, i):
+    """shape = one (rows, cols) for the whole stack, or a list with one shape per frame (mixed-shape list stacks)."""
+    return tuple(shape[i]) if isinstance(shape[0], (tuple, list)) else tuple(shape)
+
+
+def ramp_image(shape, angle_deg, coef):
+    """Frame whose intensity is a *linear function of the canvas position* its pixels are supposed to land on:
+    v(r, c) = a*X + b*Y + g with (X, Y) = R(theta)(r - (R-1)/2, c - (C-1)/2) the closed-form offset from the canvas centre.
+    Wherever the resampled frame is fully supported, the normalised KDE estimate at canvas pixel q is then a*(q_r - centre_r) +
+    b*(q_c - centre_c) + g up to the kernel-weighted mean offset of the contributing samples (measured <= 0.07 px)."""
+    R, C = shape
+    th = np.deg2rad(angle_deg)
+    dr = np.arange(R, dtype=np.float64)[:, None] - (R - 1) / 2.0
+    dc = np.arange(C, dtype=np.float64)[None, :] - (C - 1) / 2.0
+    a, b, g = coef
+    return a * (np.cos(th) * dr - np.sin(th) * dc) + b * (np.sin(th) * dr + np.cos(th) * dc) + g
+
+
+LAYOUTS = ["C", "F", "T_view", "rot90_view", "strided", "readonly", "flipped_view", "offset_view"]
+
+
+def with_layout(arr, kind):
+    """The same 2-D values in another memory layout (every variant compares equal to `arr`)."""
+    arr = np.ascontiguousarray(arr)
+    if kind == "C":
+        out = arr.copy()
+    elif kind == "F":
+        out = np.asfortranarray(arr)
+    elif kind == "T_view":
+        out = np.ascontiguousarray(arr.T).T
+    elif kind == "rot90_view":
+        out = np.rot90(np.ascontiguousarray(np.rot90(arr, -1)))
+    elif kind == "strided":
+        big = np.zeros((2 * arr.shape[0], 3 * arr.shape[1]), dtype=arr.dtype)
+        out = big[::2, 1::3]
+        out[...] = arr
+    elif kind == "readonly":
+        out = arr.copy()
+        out.setflags(write=False)
+    elif kind == "flipped_view":
+        out = np.ascontiguousarray(arr[::-1, ::-1])[::-1, ::-1]
+    elif kind == "offset_view":
+        big = np.zeros((arr.shape[0] + 3, arr.shape[1] + 5), dtype=arr.dtype)
+        out = big[2 : 2 + arr.shape[0], 4 : 4 + arr.shape[1]]
+        out[...] = arr
+    else:
+        raise ValueError(kind)
+    if not (out.shape == arr.shape and np.array_equal(out, arr)):
+        raise HarnessError("layout variant %s does not reproduce the frame" % kind)
+    return out
+
+
+FORMS = ["list_ndarray", "list_ndarray_layouts", "array3d", "array3d_layouts", "dataset3d", "list_dataset2d"]
+
+
+def make_container(ctx, rng, frames, form):
+    """The stack in one of the documented input forms; calibration (sampling / origin / units) is arbitrary and anisotropic:
+    the property is stated in pixels, so the pixel geometry must equal that of bare arrays.  Returns (container, description)."""
+    Dataset2d, Dataset3d = ctx.state["Dataset2d"], ctx.state["Dataset3d"]
+    same = all(f.shape == frames[0].shape for f in frames)
+    if form in ("array3d", "array3d_layouts", "dataset3d") and not same:
+        form = "list_dataset2d" if form == "dataset3d" else "list_ndarray_layouts"
+    if form == "list_ndarray":
+        return [np.ascontiguousarray(f).copy() for f in frames], form
+    if form == "list_ndarray_layouts":
+        kinds = [LAYOUTS[int(rng.integers(1, len(LAYOUTS)))] for _ in frames]
+        return [with_layout(f, k) for f, k in zip(frames, kinds)], form + ":" + ",".join(kinds)
+    stack = np.stack([np.ascontiguousarray(f) for f in frames]) if same else None
+    if form == "array3d":
+        return stack, form
+    if form in ("array3d_layouts", "dataset3d"):
+        k3 = ["C", "F", "T_view", "readonly", "strided"][int(rng.integers(5))]
+        if k3 == "F":
+            st = np.asfortranarray(stack)
+        elif k3 == "T_view":
+            st = np.ascontiguousarray(stack.transpose(2, 1, 0)).transpose(2, 1, 0)
+        elif k3 == "readonly":
+            st = stack.copy()
+            st.setflags(write=False)
+        elif k3 == "strided":
+            big = np.zeros((stack.shape[0], 2 * stack.shape[1], 2 * stack.shape[2] + 1))
+            st = big[:, 1::2, 1::2]
+            st[...] = stack
+        else:
+            st = stack.copy()
+        if not np.array_equal(st, stack):
+            raise HarnessError("3-D layout variant does not reproduce the stack")
+        if form == "array3d_layouts":
+            return st, form + ":" + k3
+        samp = (1.0, float(rng.choice([0.1, 0.25, 2.0])), float(rng.choice([0.2, 0.5, 3.0])))
+        return Dataset3d.from_array(st, name="stack", origin=(0.0, float(rng.uniform(-5, 5)), float(rng.uniform(-5, 5))), sampling=samp, units=["index", "nm", "nm"]), form + ":" + k3 + ":sampling=%s" % (samp,)
+    if form == "list_dataset2d":
+        out, desc = [], []
+        for f in frames:
+            k2 = LAYOUTS[int(rng.integers(len(LAYOUTS)))]
+            samp = (float(rng.choice([0.1, 0.2, 1.0, 2.5])), float(rng.choice([0.1, 0.4, 1.0, 0.05])))
+            if samp[0] == samp[1]:
+                samp = (samp[0], samp[0] * 2.0)
+            out.append(Dataset2d.from_array(with_layout(f, k2), name="frame", origin=(float(rng.uniform(-9, 9)), float(rng.uniform(-9, 9))), sampling=samp, units=[["nm", "nm"], ["A", "A"], ["pixels", "nm"]][int(rng.integers(3))]))
+            desc.append("%s/%s" % (k2, samp))
+        return out, form + ":" + ",".join(desc)
+    raise ValueError(form)
+
+
+def _ramp_check(ctx, img, shape, canvas, angle, sigma, coef, common, what, scale=1.0):
+    """End-to-end intensity placement: where the resampled frame is fully supported its value is the ramp at that canvas pixel."""
+    if coef is None:
+        return
+    R, C = shape
+    H, W = img.shape
+    xa_e, ya_e = T.scan_geometry(shape, canvas, angle)
+    m = int(4.0 * sigma * scale + 0.5) + 1
+    xs, ys = xa_e * scale, ya_e * scale
+    if not (xs.min() >= m and xs.max() <= H - 2 - m and ys.min() >= m and ys.max() <= W - 2 - m):
+        ctx.count("intensity_placement_not_judged_footprint_touches_border")
+        return
+    a, b, g = coef
+    cr, cc = (canvas[0] - 1) / 2.0, (canvas[1] - 1) / 2.0
+    qr = np.arange(H, dtype=np.float64)[:, None] / scale - cr  # canvas offsets from the centre in un-scaled pixels
+    qc = np.arange(W, dtype=np.float64)[None, :] / scale - cc
+    th = np.deg2rad(angle)
+    dr = np.cos(th) * qr + np.sin(th) * qc  # back-rotated: position in the frame's own axes
+    dcl = -np.sin(th) * qr + np.cos(th) * qc
+    mm = 4.0 * sigma + 1.5
+    inside = (np.abs(dr) <= (R - 1) / 2.0 - mm) & (np.abs(dcl) <= (C - 1) / 2.0 - mm)
+    if int(inside.sum()) < 4:
+        ctx.count("intensity_placement_not_judged_no_interior")
+        return
+    expect = a * qr + b * qc + g
+    err = float(np.max(np.abs(np.asarray(img, dtype=np.float64) - expect)[inside])) / (abs(a) + abs(b))
+    ctx.close(err, 0.5, "intensity_not_at_closed_form_position", lambda: "%s: frame %s angle %.3f ramp (%.3f, %.3f, %.2f): resampled intensities are off by the equivalent of %.3f px" % (what, shape, angle, a, b, g, err), stage=what, **common)
+
+
 def _recheck_geometry(ctx, dc, shape, canvas, angles, common, returned, after):
     """The undrifted knots are unchanged, so at any later time the same object must still give the closed form, the same
     values as before, and arrays it handed out earlier must not have been modified behind the caller's back."""
     for i in range(len(angles)):
-        xa_e, ya_e = T.scan_geometry(shape, canvas, angles[i])
+        xa_e, ya_e = T.scan_geometry(_sh(shape, i), canvas, angles[i])
         xr, yr = dc.interpolator[i].transform_coordinates(dc.knots[i])
         xa, ya = np.array(xr, dtype=np.float64, copy=True), np.array(yr, dtype=np.float64, copy=True)
-        if xa.shape != tuple(shape) or ya.shape != tuple(shape):
+        if xa.shape != _sh(shape, i) or ya.shape != _sh(shape, i):
             ctx.check(False, "coords_bad_shape", "coords shape %s/%s for image %s after %s" % (xa.shape, ya.shape, shape, after), stage="after:" + after[-1], **common)
             continue
 
@@ -252,7 +399,7 @@ def _recheck_geometry(ctx, dc, shape, canvas, angles, common, returned, after):
     ctx.close(worst, 0.0, "returned_coords_changed_by_later_call", lambda: "coordinate arrays returned for image %s were modified in place by later calls %s" % (who, after), stage="after:" + after[-1], **common)
 
 
-def _object_history(ctx, rng, dc, shape, canvas, angles, sigma, common, returned):
+def _object_history(ctx, rng, dc, shape, canvas, angles, sigma, common, returned, ramps=None):
     """History on one DriftCorrection / its interpolators with unchanged (undrifted) knots: upsampled warps, corrected-image
     generation, plain warps and repeated coordinate evaluations in random order; geometry and weights re-checked after each."""
     n = len(angles)
@@ -263,12 +410,14 @@ def _object_history(ctx, rng, dc, shape, canvas, angles, sigma, common, returned
         done.append(op)
         if op in ("warp_upsampled", "warp_plain"):
             for i in ([int(rng.integers(n))] if rng.random() < 0.5 else range(n)):
-                xa_e, ya_e = T.scan_geometry(shape, canvas, angles[i])
+                xa_e, ya_e = T.scan_geometry(_sh(shape, i), canvas, angles[i])
                 s2 = float(rng.uniform(0.3, 0.7))
                 up2 = 1 if op == "warp_plain" else int(rng.choice([2, 3]))
                 kw = {} if op == "warp_plain" and rng.random() < 0.5 else {"kde_sigma": s2, "upsample_factor": up2}
-                _, w2 = dc.interpolator[i].warp_image(dc.images[i].array, dc.knots[i], **kw)
-                _weights_checks(ctx, w2, shape, canvas, angles[i], s2 if kw else sigma, xa_e, ya_e, dict(common), op + ":" + ">".join(done[:-1][-2:]), scale=float(up2))
+                img2, w2 = dc.interpolator[i].warp_image(dc.images[i].array, dc.knots[i], **kw)
+                _weights_checks(ctx, w2, _sh(shape, i), canvas, angles[i], s2 if kw else sigma, xa_e, ya_e, dict(common), op + ":" + ">".join(done[:-1][-2:]), scale=float(up2))
+                if ramps is not None:
+                    _ramp_check(ctx, np.asarray(img2), _sh(shape, i), canvas, angles[i], s2 if kw else sigma, ramps[i], dict(common), op, scale=float(up2))
         elif op == "generate_corrected_image":
             try:
                 with warnings.catch_warnings():
@@ -355,28 +504,43 @@ def _previous_life(D, rng, shape, n, same_n=True):
 def _run_geom(spec, idx, ctx):
     D = ctx.state["D"]
     rng = ctx.rng(idx)
-    shape = gen_shape(rng, spec["shape"])
+    shape0 = gen_shape(rng, spec["shape"])
     n = int(rng.integers(2, 5))
     angles = gen_angles(rng, spec["angle"], n)
     pad = gen_pad(rng, spec["pad"])
     sigma = float(rng.uniform(0.3, 2.0))
+    # frame shapes: one shape for the whole stack, or a mixed-shape list stack (the same region acquired as HxW and WxH, or unrelated sizes)
+    mixed = bool(spec.get("mixed")) and shape0[0] != shape0[1]
+    if mixed:
+        shapes = [shape0 if rng.random() < 0.5 else (shape0[1], shape0[0]) for _ in range(n)]
+        if rng.random() < 0.3:
+            shapes[int(rng.integers(n))] = (shape0[0] + int(rng.integers(1, 4)), max(6, shape0[1] - int(rng.integers(1, 4))))
+        if all(sh == shapes[0] for sh in shapes):
+            shapes[-1] = (shapes[0][1], shapes[0][0])
+    else:
+        shapes = [shape0] * n
+    ramps = [(float(rng.uniform(0.2, 1.0) * rng.choice([-1, 1])), float(rng.uniform(0.2, 1.0) * rng.choice([-1, 1])), float(rng.uniform(40.0, 60.0))) for _ in range(n)]
+    images = [ramp_image(shapes[i], angles[i], ramps[i]) for i in range(n)]  # canonical frames: float64, C-contiguous
     pad_value = [("median"), ("mean"), ("min"), ("max"), 0.25, None][int(rng.integers(6))]
-    images = [rng.random(shape) + 0.2 for _ in range(n)]
     if pad_value is None:
         pad_value = [float(np.median(im)) for im in images]
-    square = shape[0] == shape[1]
+    form = spec.get("form", "list_ndarray")
+    square = all(sh[0] == sh[1] for sh in shapes)
     coords = {}
     canvas0 = None
     reused = bool(spec.get("reused"))
     dc_life = None
+    K_eq = int(rng.integers(1, 5))  # knot count at which the result is also compared with the canonical input form
+    form_desc = form
     for K in (1, 2, 3, 4):
-        common = {"knots": K, "reused_object": reused, "square": square, "angle_class": spec["angle"], "pad_class": spec["pad"], "right_angle": not any(angle_is_nontrivial(a) for a in angles)}
+        common = {"knots": K, "reused_object": reused, "square": square, "mixed_shapes": mixed, "input_form": form, "angle_class": spec["angle"], "pad_class": spec["pad"], "right_angle": not any(angle_is_nontrivial(a) for a in angles)}
         valid_kw = dict(pad_fraction=pad, pad_value=pad_value, kde_sigma=sigma, number_knots=K)
+        container, form_desc = make_container(ctx, rng, images, form)
         if reused:
             # the same object is re-configured through its public setters, hits an invalid call, and is preprocessed again
             if dc_life is None or rng.random() < 0.5:
                 if dc_life is None:
-                    dc_life, _m = _previous_life(D, rng, shape, n)
+                    dc_life, _m = _previous_life(D, rng, shape0, n)
                 else:  # detour: another acquisition on the same object between two knot counts
                     dc_life.scan_direction_degrees = [float(rng.uniform(0, 360)) for _ in range(n)]
                 with warnings.catch_warnings():
@@ -385,7 +549,7 @@ def _run_geom(spec, idx, ctx):
                     if rng.random() < 0.3:
                         dc_life.align_translation(upsample_factor=1, show_merged=False)
                 dc_life.scan_direction_degrees = list(angles)
-                dc_life.images = [im.copy() for im in images]
+                dc_life.images = container
                 if rng.random() < 0.5:
                     dc_life.pad_fraction = pad
                     dc_life.kde_sigma = sigma
@@ -396,7 +560,7 @@ def _run_geom(spec, idx, ctx):
             if reused:
                 dc = dc_life.preprocess(**valid_kw)
             else:
-                dc = D.DriftCorrection.from_data([im.copy() for im in images], list(angles)).preprocess(**valid_kw)
+                dc = D.DriftCorrection.from_data(container, np.array(angles) if rng.random() < 0.3 else list(angles)).preprocess(**valid_kw)
         finally:
             tc_log, ctx.state["tc_log"] = ctx.state["tc_log"], None
         canvas = tuple(int(v) for v in dc.shape[1:])
@@ -404,17 +568,18 @@ def _run_geom(spec, idx, ctx):
             canvas0 = canvas
         if canvas != canvas0:
             ctx.count("observed:canvas_depends_on_knot_count")  # not judged by itself: the coordinate comparison below decides
-        ctx.check(len(dc.knots) == n and all(np.asarray(k).shape == (2, shape[0], K) for k in dc.knots), "knots_bad_shape", lambda: "knots shapes %s expected (2,%d,%d)" % ([np.asarray(k).shape for k in dc.knots], shape[0], K), **common)
+        ctx.check(len(dc.knots) == n and all(np.asarray(k).shape == (2, shapes[i][0], K) for i, k in enumerate(dc.knots)), "knots_bad_shape", lambda: "knots shapes %s for frames %s, %d knots" % ([np.asarray(k).shape for k in dc.knots], shapes, K), **common)
         returned = []  # (image, when, returned xa, returned ya, snapshot xa, snapshot ya): values handed out must stay what they were
-        for i in range(n):
+        for i in range(min(n, len(dc.knots))):
+            shape = shapes[i]
             xa_e, ya_e = T.scan_geometry(shape, canvas, angles[i])
             # initial knot placement: the K control points of row r lie on the scan line at evenly spaced columns
             kn = np.asarray(dc.knots[i], dtype=np.float64)
             cols = np.linspace(0, shape[1] - 1, K) if K > 1 else np.array([0.0])
-            ke_x = np.stack([np.interp(cols, np.arange(shape[1]), xa_e[r]) for r in range(shape[0])]) if shape[1] > 1 else xa_e[:, :1]
-            ke_y = np.stack([np.interp(cols, np.arange(shape[1]), ya_e[r]) for r in range(shape[0])]) if shape[1] > 1 else ya_e[:, :1]
+            ke_x = np.stack([np.interp(cols, np.arange(shape[1]), xa_e[r]) for r in range(shape[0])])
+            ke_y = np.stack([np.interp(cols, np.arange(shape[1]), ya_e[r]) for r in range(shape[0])])
             if kn.shape == (2, shape[0], K):
-                ctx.close(max(np.abs(kn[0] - ke_x).max(), np.abs(kn[1] - ke_y).max()), TOL_COORD, "initial_knots_not_closed_form", lambda: "image %d shape %s angle %.4f pad %.3f knots %d canvas %s" % (i, shape, angles[i], pad, K, canvas), **common)
+                ctx.close(max(np.abs(kn[0] - ke_x).max(), np.abs(kn[1] - ke_y).max()), TOL_COORD, "initial_knots_not_closed_form", lambda: "image %d of %s (%s) angle %.4f pad %.3f knots %d canvas %s" % (i, shapes, form_desc, angles[i], pad, K, canvas), **common)
             xa_ret, ya_ret = dc.interpolator[i].transform_coordinates(dc.knots[i])
             xa, ya = np.array(xa_ret, dtype=np.float64, copy=True), np.array(ya_ret, dtype=np.float64, copy=True)  # snapshots
             returned.append((i, "first call", xa_ret, ya_ret, xa, ya))
@@ -423,9 +588,9 @@ def _run_geom(spec, idx, ctx):
                 continue
             err = max(np.abs(xa - xa_e).max(), np.abs(ya - ya_e).max())
 
-            def detail(i=i, xa=xa, ya=ya, xa_e=xa_e, ya_e=ya_e):
+            def detail(i=i, xa=xa, ya=ya, xa_e=xa_e, ya_e=ya_e, shape=shape):
                 p = np.unravel_index(np.argmax(np.abs(xa - xa_e) + np.abs(ya - ya_e)), xa.shape)
-                return "image %d shape %s angle %.4f pad %.3f knots %d canvas %s: pixel %s -> (%.6f, %.6f), closed form (%.6f, %.6f)" % (i, shape, angles[i], pad, K, canvas, tuple(int(v) for v in p), xa[p], ya[p], xa_e[p], ya_e[p])
+                return "image %d shape %s of stack %s (%s) angle %.4f pad %.3f knots %d canvas %s: pixel %s -> (%.6f, %.6f), closed form (%.6f, %.6f)" % (i, shape, shapes if mixed else "uniform", form_desc, angles[i], pad, K, canvas, tuple(int(v) for v in p), xa[p], ya[p], xa_e[p], ya_e[p])
 
             ctx.close(err, TOL_COORD, "coords_not_closed_form", detail, **common)
             coords[(K, i)] = (xa, ya)
@@ -437,13 +602,23 @@ def _run_geom(spec, idx, ctx):
                 best = min((max(np.abs(lx - xa_e).max(), np.abs(ly - ya_e).max()) for lx, ly in tc_log if lx.shape == xa_e.shape), default=None)
                 if best is not None:
                     ctx.close(best, TOL_COORD, "preprocess_resampled_with_other_coords", lambda: "image %d shape %s angle %.4f knots %d: no transform_coordinates call made by preprocess returned the closed form" % (i, shape, angles[i], K), **common)
-            # weight map of the initial resampling
-            wcommon = dict(common)
-            _weights_checks(ctx, dc.weights_warped.array[i], shape, canvas, angles[i], sigma, xa_e, ya_e, wcommon, "preprocess")
-        _object_history(ctx, rng, dc, shape, canvas, angles, sigma, common, returned)
+            # weight map and intensities of the initial resampling
+            _weights_checks(ctx, dc.weights_warped.array[i], shape, canvas, angles[i], sigma, xa_e, ya_e, dict(common), "preprocess")
+            _ramp_check(ctx, np.asarray(dc.images_warped.array[i]), shape, canvas, angles[i], sigma, ramps[i], dict(common), "preprocess")
+        if K == K_eq and form != "list_ndarray":
+            # metamorphic: the input form (container type, calibration, memory layout) must not change the result
+            ref = D.DriftCorrection.from_data([np.ascontiguousarray(im).copy() for im in images], list(angles)).preprocess(**valid_kw)
+            okn = len(ref.knots) == len(dc.knots) and all(np.asarray(p).shape == np.asarray(q).shape for p, q in zip(ref.knots, dc.knots))
+            dk = max(float(np.max(np.abs(np.asarray(p) - np.asarray(q)))) for p, q in zip(ref.knots, dc.knots)) if okn else float("inf")
+            Wv, Wr = np.asarray(dc.images_warped.array, dtype=np.float64), np.asarray(ref.images_warped.array, dtype=np.float64)
+            di = float(np.max(np.abs(Wv - Wr))) / max(float(np.max(np.abs(Wr))), 1e-300) if Wv.shape == Wr.shape else float("inf")
+            Cv, Cr = np.asarray(dc.weights_warped.array, dtype=np.float64), np.asarray(ref.weights_warped.array, dtype=np.float64)
+            dw = float(np.max(np.abs(Cv - Cr))) if Cv.shape == Cr.shape else float("inf")
+            ctx.close(max(dk, di, dw), 1e-6, "input_form_changes_result", lambda: "input form %s vs list of C-contiguous float64 arrays (frames %s, angles %s, knots %d): knots differ by %.3g, warped images by %.3g (relative), weights by %.3g" % (form_desc, shapes, angles, K, dk, di, dw), **common)
+        _object_history(ctx, rng, dc, shapes, canvas, angles, sigma, common, returned, ramps=ramps)
     nontriv = (not square) or any(angle_is_nontrivial(a) for a in angles)
-    ctx.nontrivial(("geom", spec["shape"], spec["angle"], spec["pad"], reused), nontriv)
-    ctx.observe(shape=list(shape), angles=angles, pad=pad, canvas=list(canvas0), sigma=sigma, n=n)
+    ctx.nontrivial(("geom", spec["shape"], spec["angle"], spec["pad"], reused, form, mixed), nontriv)
+    ctx.observe(shapes=[list(sh) for sh in shapes], angles=angles, pad=pad, canvas=list(canvas0), sigma=sigma, n=n, input_form=form_desc)
 
 
 def _run_fixed(spec, idx, ctx):
@@ -462,6 +637,12 @@ def _run_fixed(spec, idx, ctx):
     reused = bool(spec.get("reused"))
     common = {"knots": K, "up": up, "upsampled": up > 1, "square": shape[0] == shape[1], "family": spec["family"], "angle_class": spec["angle"], "reused_object": reused, "pad_value_form": pv_form}
     valid_kw = dict(pad_fraction=pad, pad_value=pad_value, kde_sigma=sigma, number_knots=K)
+    form = spec.get("form", "list_ndarray")
+    common["input_form"] = form
+
+    def stack_in():  # the identical stack in the requested input form (container type, calibration, memory layout)
+        return make_container(ctx, rng, [im] * n, form)[0]
+
     if reused:
         # the object first serves a different stack (frames with different statistics) with the same arguments, then receives the
         # identical stack through the public setters and is preprocessed again
@@ -475,16 +656,16 @@ def _run_fixed(spec, idx, ctx):
             if rng.random() < 0.5:
                 dc.align_translation(upsample_factor=int(rng.choice([1, 2, 4])), show_merged=False)
         if rng.random() < 0.5:
-            dc.images = [im.copy() for _ in range(n)]
+            dc.images = stack_in()
             dc.scan_direction_degrees = [angle] * n
         else:
             dc.scan_direction_degrees = [angle] * n
-            dc.images = [im.copy() for _ in range(n)]
+            dc.images = stack_in()
         if rng.random() < 0.35:
             common["after_error"] = _error_step(ctx, rng, dc, n, valid_kw, [angle] * n)
         dc.preprocess(**valid_kw)
     else:
-        dc = D.DriftCorrection.from_data([im.copy() for _ in range(n)], [angle] * n).preprocess(**valid_kw)
+        dc = D.DriftCorrection.from_data(stack_in(), [angle] * n).preprocess(**valid_kw)
     # identical frames resampled with the same geometry must give identical canvases (premise of the fixed point)
     W = np.asarray(dc.images_warped.array, dtype=np.float64)
     ctx.close(float(np.max(np.abs(W - W[0]))) / max(float(np.max(np.abs(W[0]))), 1e-300), 1e-6, "identical_frames_resampled_differently", lambda: "identical stack n=%d shape %s pad_value=%r (object reused: %s): the initial warped images differ; pad values %r" % (n, shape, pad_value, reused, list(getattr(dc, "pad_value", []))), **common)
@@ -529,7 +710,7 @@ def _run_fixed(spec, idx, ctx):
         xr, yr = np.asarray(xr, dtype=np.float64), np.asarray(yr, dtype=np.float64)
         if xr.shape == tuple(shape):
             ctx.close(max(np.abs(xr - xa_e).max(), np.abs(yr - ya_e).max()), 2 * TOL_FIXED, "fixed_point_coords_left_closed_form", lambda: "identical stack shape %s angle %.4f knots %d up %d: coordinates of image %d after align/generate/align differ from the closed form" % (shape, angle, K, up, i), **common)
-    ctx.nontrivial(("fixed", spec["shape"], spec["angle"], up, K, spec["family"], reused), shape[0] != shape[1] or angle_is_nontrivial(angle))
+    ctx.nontrivial(("fixed", spec["shape"], spec["angle"], up, K, spec["family"], reused, form), shape[0] != shape[1] or angle_is_nontrivial(angle))
     ctx.observe(shape=list(shape), angle=angle, pad=pad, n=n, sigma=sigma, knots_moved=moved, measured_shifts=[s.tolist() for s in (cc_log or [])], kwargs=kw)
 
 
